@@ -121,6 +121,15 @@ def classify(S, err, v):
     """signature of a rejection, specific enough to tell the recorded defects apart from anything new"""
     import enum
 
+    if err.validator in ("anyOf", "oneOf") and err.context:
+        # an Optional / union wrapper: the informative failure is one level down
+        subs = [classify(S, e, v) for e in err.context]
+        for name in ("flag-combination-not-in-enum", "init-false-field-not-in-schema"):
+            if name in subs:
+                return name
+        for x in subs:
+            if x.startswith(("propertyNames", "shared-definition-name")):
+                return x
     sp = [str(x) for x in err.absolute_schema_path if not str(x).isdigit()]
     if "propertyNames" in sp:
         return "propertyNames-non-string-key-schema/" + sp[-1]
